@@ -30,6 +30,24 @@ CHECKS = {
         "assumptions": A_SIM,
         "parts": [sim(300, 5000)],
     },
+    "C04": {
+        "level": "exploration",
+        "rule": "rapid stateful generation of every read path (subscribe, get, new, call/auth resource response, HTTP GET) x access outcomes (grant, get:false, missing result, RES error, timeout, no responders) x answer orders x token events, reaccess events and system.reset access patterns at any step; oracle over the boundary log: every frame handing a root resource needs an access answer for that connection/resource with get:true that was valid at the decision step (no trigger between the answer and a later request that reuses it); a first request whose access answer is not a grant must get that error. Non-trivial = a denial and a grant for the same connection+resource in one history, or a trigger between grant and data; distinct by script hash",
+        "assumptions": A_SIM + ["decision-time validity (DESIGN 3.6): a trigger that lands after the verdict was taken but before the data frame creates a C06 obligation instead"],
+        "parts": [sim(300, 5000)],
+    },
+    "C05": {
+        "level": "exploration",
+        "rule": "rapid stateful generation of call/new over WebSocket and POST/PUT/DELETE over HTTP on subscribed (cached verdict) and unsubscribed resources with call lists whose entries are prefixes/suffixes of the methods, token events, reaccess events and matching resets at any step; oracle over the boundary log: every call.* request has a governing access answer of that connection granting the method (* or exact list entry) that no trigger invalidated before the decision step; a granted call is not refused; every access/call/auth payload carries the connection's most recent token. Non-trivial = a trigger lies between the access request and a call decided on its cached answer; distinct by script hash",
+        "assumptions": A_SIM,
+        "parts": [sim(300, 5000)],
+    },
+    "C06": {
+        "level": "exploration",
+        "rule": "rapid stateful generation of token events (repeated, null), reaccess events and system.reset access patterns at every step relative to loading, queued events and pending re-checks, with dense custom events; oracle: for each trigger and each (connection, rid) directly subscribed: an access re-request with the current token follows, a non-grant verdict yields an unsubscribe event with that reason in the verdict's step, and no custom event that reached the gateway after the trigger is framed before the verdict. Non-trivial = events reached the gateway inside a re-check window; distinct by script hash",
+        "assumptions": A_SIM + ["no obligation is asserted for a token event that follows a null token"],
+        "parts": [sim(300, 5000)],
+    },
     "C07": {
         "level": "exploration",
         "rule": "rapid stateful generation of request mixes (1-2 connections, subscribe/get/unsubscribe/call/auth/new/ill-formed methods, every outcome and order of the dependent access/get/call answers, events, deletes, revocations), end-of-history epilogue answering everything; oracle: reference client counts responses per id (never two, never unknown, error objects with string code/message) and at quiescence every id on an open connection has exactly one. Non-trivial = >=2 requests for one rid overlapped, or an unsubscribe/unsubscribe event/delete hit a rid with a pending request; distinct by hash of the executed script",
@@ -47,6 +65,12 @@ CHECKS = {
 SIM_NOTE = "trusted: the harness (mock mq, reference client/service, quiescence detector) and rapid; exploration never proves absence; goroutine interleavings inside the gateway are sampled only"
 
 META = {
+    "C04": {"engine": "sim", "design_ref": "6 C04", "technique": "stateful property-based testing (rapid); trace invariant linking data frames to valid access grants",
+            "text": "every data-bearing response of generated histories is matched against the access answers and triggers recorded at the messaging boundary.", "note": SIM_NOTE},
+    "C05": {"engine": "sim", "design_ref": "6 C05", "technique": "stateful property-based testing (rapid); trace invariant linking call requests to valid grants and current tokens",
+            "text": "every forwarded call is matched against the governing access answer (method granted, not invalidated) and every cid-carrying payload against the connection's current token.", "note": SIM_NOTE},
+    "C06": {"engine": "sim", "design_ref": "6 C06", "technique": "stateful property-based testing (rapid); obligation tracking per trigger over the boundary and frame logs",
+            "text": "each trigger creates obligations (re-request, revocation on denial, no event leak before the verdict) that are discharged against the logs.", "note": SIM_NOTE},
     "C01": {"engine": "sim", "design_ref": "6 C01", "technique": "stateful property-based testing (rapid) with a reference service and reference client; oracle = model equality at quiescence",
             "text": "generated multi-client histories over generated resource graphs; at exact quiescence each client's accumulated copy equals the reference service's last announced state under the negotiated encoding.", "note": SIM_NOTE},
     "C02": {"engine": "sim", "design_ref": "6 C02", "technique": "stateful property-based testing (rapid); per-frame applicability invariant of a reachability-based reference client",
